@@ -18,6 +18,12 @@ U3bCertKey == [c \in U3Certs |-> IF c = "c1" THEN "k1" ELSE "k2"]
 U3bV0 == {"c2", "c3"}
 U3bV1 == {"c1", "c2"}
 U3bYss == {"c1", "c3"}
+\* U3c: three certificates over ONE key with three validity classes (c1 TT yss, c2 TF free, c3 FF free): two different
+\* certificates over the same key can be outside their window at once, one in memory and one in the underlying agent
+U3cCertKey == [c \in U3Certs |-> "k1"]
+U3cV0 == {"c1", "c2"}
+U3cV1 == {"c1"}
+U3cYss == {"c1"}
 \* U2: tiny universe for the fault family
 U2Certs == {"c1", "c2"}
 U2CertKey == [c \in U2Certs |-> "k1"]
